@@ -17,4 +17,5 @@ def run(ctx):
     lib_py.validate_before_store(ctx, py)
     lib_codec.codec_defaults(ctx, py)
     lib_py.table_name_agreement(ctx, py)
-    lib_py.unused_params(ctx, py, mods=("metadata",))
+    from . import scopes
+    lib_py.unused_params(ctx, py, mods=("metadata",), only=scopes.py_scope("C12"))
